@@ -182,11 +182,12 @@ Section Generic.
     - rewrite pr_elems_cons in * by discriminate.
       set (tail := pr_elems pr (x2 :: l)) in *.
       rewrite app_length in Hf, Hf0. cbn [length] in Hf, Hf0.
-      destruct fuel as [|f]; [rewrite Ec in Hf; cbn in Hf; lia|].
+      assert (Hlx : (1 <= length (pr x))%nat) by (rewrite Ec; cbn [length]; lia).
+      destruct fuel as [|f]; [lia|].
       cbn [p_elems]. rewrite <- app_assoc. cbn [app].
       rewrite (pv_ok x ("," :: tail ++ "]" :: rest) Hx ltac:(lia) (sep_comma _)).
       rewrite Ascii.eqb_refl.
-      rewrite (IH ltac:(discriminate) HF' f rest ltac:(rewrite Ec in Hf; cbn in Hf; lia) ltac:(lia)). reflexivity.
+      rewrite (IH ltac:(discriminate) HF' f rest ltac:(lia) ltac:(lia)). reflexivity.
   Qed.
 
   Lemma p_array_ok l fuel rest : Forall ok l ->
@@ -233,7 +234,7 @@ Lemma p_value_ok fuel v rest :
 Proof.
   intros H Hf S. destruct v as [x|items]; cbn [pr_value value_ok] in *.
   - destruct (pr_scalar_first x H) as [c [r [E Hc]]].
-    unfold p_value. rewrite E. cbn [app]. rewrite Hc. rewrite <- E.
+    unfold p_value. rewrite E. cbn [app]. rewrite Hc. change (c :: r ++ rest) with ((c :: r) ++ rest). rewrite <- E.
     rewrite (p_scalar_ok x rest H S). reflexivity.
   - unfold p_value. unfold pr_array at 1. cbn [app]. rewrite Ascii.eqb_refl.
     change ("[" :: (pr_elems (pr_object pr_scalar) items ++ ["]"]) ++ rest)
@@ -254,8 +255,10 @@ Qed.
 Lemma parse_ok d : Forall obj_ok d -> parse (pr_doc d) = Some d.
 Proof.
   intros H. unfold parse, p_doc.
-  rewrite <- (app_nil_r (pr_doc d)) at 2. unfold pr_doc at 2.
-  rewrite (p_array_ok obj (p_object (p_value (length (pr_doc d))) (length (pr_doc d))) (pr_object pr_value) obj_ok (length (pr_doc d))); auto.
+  set (n := length (pr_doc d)).
+  assert (Hn : length (pr_array (pr_object pr_value) d) <= n) by (unfold n, pr_doc; lia).
+  replace (pr_doc d) with (pr_array (pr_object pr_value) d ++ []) by (rewrite app_nil_r; reflexivity).
+  rewrite (p_array_ok obj (p_object (p_value n) n) (pr_object pr_value) obj_ok n); auto.
   - intros o r Ho Hl S. apply p_obj_ok; auto.
   - intros o _. apply object_first.
 Qed.
